@@ -83,7 +83,21 @@ void item_group::unref()
 item_group *item_group::clone() const
 {
 	item_group *copy = new item_group;
-	copy->_items = _items;
+	/* copy holds own references, item buffer can not be shared for modification */
+	for (const item<metatype> &it : _items) {
+		metatype *mt;
+		if ((mt = it.instance()) && !mt->addref() && !(mt = mt->clone())) {
+			copy->unref();
+			return 0;
+		}
+		item<metatype> *to;
+		if (!(to = copy->_items.append(mt, 0))) {
+			if (mt) mt->unref();
+			copy->unref();
+			return 0;
+		}
+		*to = static_cast<const identifier &>(it);
+	}
 	return copy;
 }
 
